@@ -21,7 +21,8 @@ CONSTANT MaxDefers
 DeferBound == nextCid <= MaxCommits + MaxDefers + 1
 
 (* ---- generation of behaviours for replay into parity-db (stepping API, Fine = FALSE) ---- *)
-VARIABLE obs
+VARIABLES obs,
+          closing   \* generation only: a clean close is draining the queue (drop_inner / kill_logs)
 CONSTANTS GenLen, Pipes, RejW
 
 Proj == [vis |-> [k \in TKeys |-> VisibleRoot(k)], app |-> roots,
@@ -52,18 +53,72 @@ Idle == /\ inflight = <<>>
            \/ (queue # <<>> /\ Tail(queue) = <<>> /\ MustDefer(Head(queue), <<>>))
         /\ Silent([a |-> "Pipe", w |-> "clean"])
 
+\* Clean close with commits still queued: drop() processes the whole queue (deferring where it must) before it
+\* returns, then the database is opened again.  In the model the drain is the ordinary Defer / Process / Pop / Apply
+\* steps with nothing else interleaved; the replay performs drop + open at the Close step and compares at Reopen.
+CloseBegin == queue # <<>> /\ inflight = <<>> /\ locked = {} /\ Silent([a |-> "Close"])
+
 GenNext ==
-    /\ \/ (W(IF Len(queue) >= 2 THEN 25 ELSE 70) /\ Commit)
-       \/ Idle
-       \/ (W(40) /\ \E k \in TKeys : Lock(k))
-       \/ (W(40) /\ \E k \in TKeys : Unlock(k))
-       \/ Defer \/ Process \/ Pop \/ Apply \/ (W(12) /\ Crash)
-       \/ (W(30) /\ Pipe) \/ (W(15) /\ Restart) \/ (W(RejW) /\ RejectWide) \/ (W(RejW) /\ RejectOther)
+    /\ \/ /\ ~closing /\ closing' = FALSE
+          /\ \/ (W(IF Len(queue) >= 2 THEN 25 ELSE 70) /\ Commit)
+             \/ Idle
+             \/ (W(40) /\ \E k \in TKeys : Lock(k))
+             \/ (W(40) /\ \E k \in TKeys : Unlock(k))
+             \/ Defer \/ Process \/ Pop \/ Apply \/ (W(12) /\ Crash)
+             \/ (W(30) /\ Pipe) \/ (W(15) /\ Restart) \/ (W(RejW) /\ RejectWide) \/ (W(RejW) /\ RejectOther)
+       \/ (~closing /\ W(20) /\ CloseBegin /\ closing' = TRUE)
+       \* (the close whose drain has to defer its first commit: always offered)
+       \/ (~closing /\ queue # <<>> /\ MustDefer(Head(queue), Tail(queue)) /\ CloseBegin /\ closing' = TRUE)
+       \/ (closing /\ (queue # <<>> \/ inflight # <<>>) /\ (Defer \/ Process \/ Pop \/ Apply) /\ closing' = TRUE)
+       \/ (closing /\ queue = <<>> /\ inflight = <<>> /\ Silent([a |-> "Reopen"]) /\ closing' = FALSE)
     /\ obs' = Append(obs, Proj')
 
-\* exhaustive checking: the observation history stays empty
-MCSpec == Init /\ obs = <<>> /\ [][Next /\ UNCHANGED obs]_<<vars, obs>>
+(* ---- scripted generation: TLC (breadth first) fills in everything a script leaves open ---- *)
+\* A script pins the kind of every step of a behaviour (and the tree key where it matters); TLC enumerates all
+\* behaviours of the specification that follow it and emits each with the model's observations.  This reaches
+\* situations that random simulation meets too rarely (they need several specific steps in a row).
+CONSTANT Script
+S(a, t, k, inc) == [a |-> a, t |-> t, k |-> k, inc |-> inc]   \* inc: 0 any, 1 links existing nodes, 2 only new nodes
+\* (IF, not disjunction: inside an action TLC explores both sides of a disjunction)
+Matches(e, s) ==
+    IF e.a # s.a THEN FALSE
+    ELSE IF s.a = "Commit"
+         THEN IF e.tx.tree.t # s.t THEN FALSE
+              ELSE IF s.t = "none" THEN TRUE
+              ELSE IF s.k # 0 /\ e.tx.tree.k # s.k THEN FALSE
+              ELSE IF s.inc = 0 \/ s.t # "ins" THEN TRUE
+              ELSE IF s.inc = 1 THEN e.tx.tree.incs # <<>> ELSE e.tx.tree.incs = <<>>
+    ELSE IF s.a \in {"Lock", "Unlock"} THEN e.k = s.k
+    ELSE TRUE
+ScriptNext ==
+    /\ Len(hist) < Len(Script)
+    /\ \/ /\ ~closing /\ closing' = FALSE
+          /\ \/ Commit \/ (\E k \in TKeys : Lock(k)) \/ (\E k \in TKeys : Unlock(k))
+             \/ Defer \/ Process \/ Pop \/ Apply \/ Crash \/ Pipe \/ Restart
+       \/ (~closing /\ CloseBegin /\ closing' = TRUE)
+       \/ (closing /\ (queue # <<>> \/ inflight # <<>>) /\ (Defer \/ Process \/ Pop \/ Apply) /\ closing' = TRUE)
+       \/ (closing /\ queue = <<>> /\ inflight = <<>> /\ Silent([a |-> "Reopen"]) /\ closing' = FALSE)
+    /\ Matches(hist'[Len(hist')], Script[Len(hist')])
+    /\ obs' = Append(obs, Proj')
+ScriptSpec == Init /\ obs = <<>> /\ closing = FALSE /\ [][ScriptNext]_<<vars, obs, closing>>
+EmitScript == Len(hist) < Len(Script) \/ PrintT("REPLAY " \o ToJson([steps |-> hist, obs |-> obs]))
 
-GenSpec == Init /\ obs = <<>> /\ [][GenNext]_<<vars, obs>>
+ScriptNone == <<>>
+\* clean close whose drain has to defer the first queued commit: a dereference of tree 1, queued while a reader held
+\* tree 1, followed by an insertion that links nodes of tree 1 (so it is marked as using it); lock released; drop()
+ScriptCloseDefer == <<S("Commit", "ins", 1, 2), S("Process", "", 0, 0), S("Lock", "", 1, 0), S("Commit", "deref", 1, 0),
+                      S("Commit", "ins", 2, 1), S("Unlock", "", 1, 0), S("Close", "", 0, 0), S("Defer", "", 0, 0),
+                      S("Process", "", 0, 0), S("Process", "", 0, 0), S("Reopen", "", 0, 0), S("Commit", "ins", 3, 0),
+                      S("Process", "", 0, 0)>>
+\* ... with one more commit queued behind them (a plain write or another tree operation)
+ScriptCloseDefer2 == <<S("Commit", "ins", 1, 2), S("Process", "", 0, 0), S("Lock", "", 1, 0), S("Commit", "deref", 1, 0),
+                       S("Commit", "ins", 2, 1), S("Commit", "none", 0, 0), S("Unlock", "", 1, 0), S("Close", "", 0, 0),
+                       S("Defer", "", 0, 0), S("Process", "", 0, 0), S("Process", "", 0, 0), S("Process", "", 0, 0),
+                       S("Reopen", "", 0, 0), S("Commit", "deref", 2, 0), S("Process", "", 0, 0)>>
+
+\* exhaustive checking: the observation history stays empty
+MCSpec == Init /\ obs = <<>> /\ closing = FALSE /\ [][Next /\ UNCHANGED <<obs, closing>>]_<<vars, obs, closing>>
+
+GenSpec == Init /\ obs = <<>> /\ closing = FALSE /\ [][GenNext]_<<vars, obs, closing>>
 EmitTrace == TLCGet("level") < GenLen \/ PrintT("REPLAY " \o ToJson([steps |-> hist, obs |-> obs]))
 =============================================================================
